@@ -194,6 +194,59 @@ pub fn roundtrip_body(f: &GForest, ctx: &mut CaseCtx) -> PropResult {
     Ok(())
 }
 
+/// Sizes around and above the 64 Ki-item pre-allocation caps of the reader: one long value in a
+/// column of two, very many instances of one class, very many classes.
+#[derive(Clone, Debug, Serialize, Deserialize)]
+pub enum LargeCase {
+    LongValue { kind: String, n: usize },
+    ManyInstances { n: usize },
+    ManyClasses { n: usize },
+}
+
+pub fn large_forest(c: &LargeCase) -> GForest {
+    use crate::gen::forest::GNode;
+    let node = |parent: Option<usize>, class: &str, name: String, props: Vec<(String, GVal)>| GNode { parent, class: class.to_string(), name, props };
+    let nodes = match c {
+        LargeCase::LongValue { kind, n } => {
+            let (class, prop, long, short): (&str, &str, GVal, GVal) = match kind.as_str() {
+                "String" => ("StringValue", "Value", super::c14::long_value("String", *n), GVal::String("short".into())),
+                "SharedString" => ("ZzLarge", "Shared", GVal::SharedString((0..*n).map(|i| (i * 7 % 253) as u8).collect()), GVal::SharedString(vec![1, 2, 3])),
+                "NumberSequence" => ("ZzLarge", "Seq", super::c14::long_value(kind, *n), GVal::NumberSequence(vec![[0, 0, 0], [1f32.to_bits(), 0, 0]])),
+                "ColorSequence" => ("ZzLarge", "Colors", super::c14::long_value(kind, *n), GVal::ColorSequence(vec![(0, [0, 0, 0]), (1f32.to_bits(), [0, 0, 0])])),
+                _ => ("ZzLarge", "Blob", super::c14::long_value("BinaryString", *n), GVal::BinaryString(vec![9])),
+            };
+            vec![
+                node(None, class, "first".into(), vec![(prop.to_string(), short)]),
+                node(None, class, "second".into(), vec![(prop.to_string(), long)]),
+                node(None, class, "third".into(), vec![]),
+            ]
+        }
+        LargeCase::ManyInstances { n } => {
+            let mut v = vec![node(None, "Model", "holder".into(), vec![])];
+            for i in 0..*n {
+                v.push(node(Some(if i % 3 == 2 { i } else { 0 }), "ZzLeaf", format!("n{i}"), if i % 2 == 0 { vec![("Flag".to_string(), GVal::Bool(i % 4 == 0))] } else { vec![] }));
+            }
+            v
+        }
+        LargeCase::ManyClasses { n } => (0..*n).map(|i| node(None, &format!("ZzK{i}"), format!("k{i}"), vec![])).collect(),
+    };
+    let mut f = GForest { nodes, roots: vec![] };
+    f.roots = f.child_table().0;
+    f
+}
+
+fn large_body(c: &LargeCase, ctx: &mut CaseCtx) -> PropResult {
+    ctx.label(match c {
+        LargeCase::LongValue { .. } => "long_value",
+        LargeCase::ManyInstances { .. } => "many_instances_of_one_class",
+        LargeCase::ManyClasses { .. } => "many_classes",
+    });
+    let f = large_forest(c);
+    roundtrip_body(&f, ctx)?;
+    ctx.nontrivial();
+    Ok(())
+}
+
 #[derive(Clone, Debug, Serialize, Deserialize)]
 pub struct RotCase {
     pub rot: [i8; 9],
@@ -355,6 +408,21 @@ pub fn run(ctx: &Ctx) -> PropertyReport {
         let mut r = ctx.run_list("scalar-sweep", blocks, exhaustive, sweep_body);
         r.notes.push("each block covers 65536 consecutive 32-bit patterns through transform/untransform (i32, i64 embedding), the f32 sign rotation and byte interleaving, compared with a decoder written from docs/binary.md".into());
         rep.push(r);
+    }
+
+    if sub.runs("large") {
+        let mut cases = Vec::new();
+        for kind in ["String", "BinaryString", "SharedString", "NumberSequence", "ColorSequence"] {
+            for n in super::c14::LONG_LENGTHS {
+                cases.push(LargeCase::LongValue { kind: kind.to_string(), n: *n });
+            }
+        }
+        cases.push(LargeCase::LongValue { kind: "BinaryString".into(), n: 1_100_000 });
+        for n in [65_535usize, 65_536, 65_537, 70_001] {
+            cases.push(LargeCase::ManyInstances { n });
+        }
+        cases.push(LargeCase::ManyClasses { n: 65_537 });
+        rep.push(ctx.run_list("large", cases, true, large_body));
     }
 
     if sub.runs("deep") {
